@@ -5,6 +5,7 @@
 
 pub mod engine;
 pub mod value;
+pub mod clock;
 pub mod memory;
 pub mod skiplist;
 pub mod stream;
